@@ -1,12 +1,14 @@
 """C16 - EISA identifiers and UUIDs are encoded per the ACPI compression rules.
 
-`EISAName::new` and `Uuid::new` are evaluated once on a symbolic string.  EISA: the value stored is
-compared, as a term, with the specification's packing  swap_bytes( (c0-40h)<<26 | (c1-40h)<<21 |
-(c2-40h)<<16 | d3<<12 | d4<<8 | d5<<4 | d6 )  under the range facts of a valid identifier, and the
-emission is the C08 integer encoding of that value.  UUID: the 16 pushed bytes are compared with
-the specification's mixed-endian map (hex pair -> byte, hi<<4|lo) and the emission is the Buffer
-production of those bytes.  Refusal: the length assertion, the four dash assertions, the
-checked_sub / to_digit unwraps must all be present (each is a guard on the only path to the value)."""
+`EISAName::new` and `Uuid::new` are evaluated once on a symbolic string, whose characters are its bytes (ASCII
+assumption, stated below) and whose hexadecimal digits are interpreted (48..57, 65..70, 97..102).  EISA: the value
+stored is compared with the specification's packing  swap_bytes( (c0-40h)<<26 | (c1-40h)<<21 | (c2-40h)<<16 |
+d3<<12 | d4<<8 | d5<<4 | d6 )  field by field (each packed field depends on one character) under the refusals
+met, and the emission is the C08 integer encoding of that value.  UUID: the 16 stored bytes are compared with the
+specification's mixed-endian map (hex pair -> byte, hi<<4|lo) and the emission is the Buffer production of those
+bytes.  Refusal: the length condition, the four dash conditions and, per character, the letter / hex-digit
+condition must each be among the refusals met (compared as conditions, however they are written), and every
+refusal met must be one of these, hold for all valid inputs, or only exclude non-ASCII strings."""
 from sym import *
 import sym
 from model import *
@@ -15,9 +17,9 @@ from evalr import SeqV, StructV
 from cells import in_cell
 
 LEVEL = 'other'
-RULE = 'term identity between the evaluated constructor and the specification packing; guard-presence rule for refusals'
-TRUSTED = ['models of char::to_digit / str::chars as uninterpreted functions with the std contract (to_digit(c,16) is Some(v<16) iff c is a hex digit)']
-ASSUMPTIONS = ['identifier characters are ASCII so that char index == byte index (a non-ASCII 7-byte string has fewer than 7 chars and is refused by the nth().unwrap())',
+RULE = 'evaluated constructor vs the specification packing, compared field by field by the decision procedure over the string bytes; refusals compared as conditions (required ones present, no others)'
+TRUSTED = ['model of char::to_digit(16) as the ASCII hexadecimal digit value (std contract)', 'spec/aml.py integer and Buffer productions (C08, C06)']
+ASSUMPTIONS = ['identifier characters are ASCII so that char index == byte index (a non-ASCII string of the required byte length has fewer characters and is refused by the nth().unwrap() / length assertion of the crate)',
                'EISA letters above Z and lower-case hex digits are not refused by the crate (not required by the property)']
 EXPLANATION = __doc__
 
